@@ -36,27 +36,51 @@ LIBS = ["(srfi 69)", "(srfi 18)", "(srfi 95)", "(srfi 151)", "(srfi 27)", "(chib
 
 
 def gen_task(rng, k):
-    libs = rng.sample(LIBS, rng.range(0, 4))
+    """steps are drawn first, each brings the library it needs; a few unrelated libraries are imported on top"""
+    need = set()
     steps = []
     steps.append("(define shared-name %d) (define (tag x) (list 'ctx %d x)) (define-record-type thing (make-thing a) thing? (a thing-a)) (tag shared-name)" % (k * 1000 + rng.below(999), k))
-    n = rng.range(1, 4)
+    n = rng.range(1, 5)
     for _ in range(n):
-        c = rng.below(7)
+        c = rng.below(12)
         if c == 0:
             steps.append("(let loop ((i 0) (acc '())) (if (= i %d) (length acc) (loop (+ i 1) (cons (make-thing (* i shared-name)) acc))))" % rng.range(100, 4000))
         elif c == 1:
             steps.append("(let loop ((i 0) (s 0)) (if (= i %d) s (loop (+ i 1) (+ s (string-length (symbol->string (string->symbol (string-append \"sym-%d-\" (number->string i)))))))))" % (rng.range(50, 1500), k))
-        elif c == 2 and "(srfi 69)" in libs:
-            steps.append("(let ((t (make-hash-table equal?))) (do ((i 0 (+ i 1))) ((= i %d)) (hash-table-set! t (list i shared-name) i)) (hash-table-size t))" % rng.range(50, 800))
-        elif c == 3 and "(srfi 95)" in libs:
+        elif c == 2:
+            need.add("(srfi 69)")
+            steps.append("(let ((t (make-hash-table equal?))) (do ((i 0 (+ i 1))) ((= i %d)) (hash-table-set! t (list i shared-name) i)) (hash-table-size t))" % rng.range(5, 800))
+        elif c == 3:
+            need.add("(srfi 95)")
             steps.append("(let ((l (let loop ((i 0) (acc '())) (if (= i %d) acc (loop (+ i 1) (cons (modulo (* i 7919 shared-name) 1009) acc)))))) (apply + (list-tail (sort l <) %d)))" % (rng.range(50, 600), 40))
-        elif c == 4 and "(chibi json)" in libs:
+        elif c == 4:
+            need.add("(chibi json)")
             steps.append("(json->string (string->json \"{\\\"k\\\": [1, 2.5, \\\"%d\\\", null]}\"))" % k)
-        elif c == 5 and "(srfi 18)" in libs:
+        elif c == 5:
+            need.add("(srfi 18)")
             steps.append("(let ((ths (map (lambda (i) (thread-start! (make-thread (lambda () (* i shared-name))))) '(1 2 3)))) (map thread-join! ths))")
-        else:
+        elif c == 6:
             steps.append("(let loop ((i 0) (acc 1)) (if (= i %d) (modulo acc 1000003) (loop (+ i 1) (* acc (+ i shared-name)))))" % rng.range(20, 300))
+        elif c == 7:
+            # short sorts (fast paths of the C sorter), of numbers and of heap objects, with and without a Scheme comparator
+            need.add("(srfi 95)")
+            steps.append("(list (sort (list %s) <) (sort (vector %s) >) (sort (list %s) string<?) (sort (list %s) (lambda (a b) (< (car a) (car b)))))" % (
+                " ".join(str((k * 7919 + i * 31) % 101) for i in range(rng.range(2, 30))), " ".join(str((k * 104729 + i * 17) % 97) for i in range(rng.range(2, 32))),
+                " ".join('"s%d-%d"' % (k, (i * 7) % 13) for i in range(rng.range(2, 12))), " ".join("(list %d shared-name)" % ((i * 5 + k) % 11) for i in range(rng.range(2, 9)))))
+        elif c == 8:
+            need.add("(srfi 151)")
+            steps.append("(list (bit-count (* shared-name 12345678901234567)) (arithmetic-shift shared-name 70) (bitwise-and (expt 3 80) (- (expt 2 90) shared-name)) (bitwise-xor shared-name -1))")
+        elif c == 9:
+            need.add("(srfi 27)")
+            steps.append("(let ((s (make-random-source))) (random-source-pseudo-randomize! s %d 3) (let ((r (random-source-make-integers s))) (list (r 1000) (r 1000) (r 1000000007))))" % k)
+        elif c == 10:
+            need.add("(scheme char)")
+            steps.append("(list (number->string (* 1.1 shared-name)) (string->number \"%d.25\") (number->string (expt shared-name 9) 16) (string->symbol (string-append \"z\" (number->string shared-name))) (exact (floor (sqrt (* 1.0 shared-name)))) (string-upcase \"ctx-%d-\u03bb\"))" % (k, k))
+        else:
+            need.add("(scheme bytevector)")
+            steps.append("(let ((b (make-bytevector 16 %d))) (bytevector-u32-set! b 4 shared-name (endianness big)) (list (bytevector-u16-ref b 6 (endianness little)) (bytevector-ieee-double-ref b 8 (endianness big)) (utf8->string (string->utf8 \"k%d\"))))" % (k % 200, k))
     steps.append("(list shared-name (thing-a (make-thing 'done)) (tag 'end))")
+    libs = sorted(need) + [l for l in rng.sample(LIBS, rng.range(0, 3)) if l not in need]
     return {"heap": rng.choice([0, 0, 512 * 1024, 1024 * 1024, 8 * 1024 * 1024, 700001, 1000008]), "yield_every": rng.choice([1, 7, 50, 400, 5000]),
             "gc_p1024": rng.choice([0, 1, 4]), "gc_seed": rng.below(1 << 30), "imports": libs, "steps": steps}
 
